@@ -1,6 +1,6 @@
 ------------------------- MODULE RouterUniverse -------------------------
 (* The universe of a Router instance as written by the harness (checks/c01.py):
-   IOEnv.ROUTER_UNIVERSE names a JSON file [ts, ps, conv, bad] -- template segments, path-segment
+   IOEnv.ROUTER_UNIVERSE names a JSON file [ts, ps, conv, bad, mconv] -- template segments, path-segment
    representatives, the trusted converter table (CPython's own int()/float()/uuid.UUID()/strptime()
    over every substring of the path segments in use) and the invalid field names.
    A module of its own, EXTENDed BEFORE Router, so that TLC has cached U when it tabulates Router's
@@ -17,5 +17,10 @@ TabInt   == Tab("int")
 TabFloat == Tab("float")
 TabUuid  == Tab("uuid")
 TabDt    == Tab("dt")
-UCT == [int |-> TabInt, float |-> TabFloat, uuid |-> TabUuid, dt |-> TabDt]
+(* user-defined converters that consume multiple segments: U.mconv is a JSON object {identifier: {key: [ok, ty, v]}},
+   i.e. a record of records; key = the list of remaining path segments written as ONE string, the segments
+   separated by "/" (injective: a segment holds no "/"); the entry is the answer of the converter's own
+   convert(list).  A list that is missing makes TLC stop (machinery failure), it is not read as a veto. *)
+TabMulti == U.mconv
+UCT == [int |-> TabInt, float |-> TabFloat, uuid |-> TabUuid, dt |-> TabDt, multi |-> TabMulti]
 =========================================================================
